@@ -59,19 +59,40 @@ def native_call(so, fn, spec, ret='i32', timeout=20, san=False):
         rt = subprocess.run(['clang++-14', '-print-file-name=libclang_rt.asan-x86_64.so'], capture_output=True, text=True).stdout.strip()
         env['LD_PRELOAD'] = rt
         env['ASAN_OPTIONS'] = 'detect_leaks=0:abort_on_error=0:exitcode=77'
-        env['UBSAN_OPTIONS'] = 'halt_on_error=1:exitcode=78:print_stacktrace=1'
+        env['UBSAN_OPTIONS'] = 'halt_on_error=1:exitcode=78:print_stacktrace=0'
     try:
         r = subprocess.run([PY, os.path.join(VERIF, 'engine', 'nativecall.py')], input=js, capture_output=True, text=True, timeout=timeout, env=env)
     except subprocess.TimeoutExpired:
         return {'status': 'timeout', 'stderr': f'no return within {timeout}s'}
     if r.returncode != 0:
-        return {'status': 'crash', 'code': r.returncode, 'stderr': r.stderr[-3000:]}
+        key = [l for l in r.stderr.split('\n') if 'runtime error' in l or 'ERROR: AddressSanitizer' in l or l.startswith('SUMMARY')]
+        return {'status': 'crash', 'code': r.returncode, 'stderr': '\n'.join(key[:6]) + '\n' + r.stderr[-1500:]}
     d = json.loads(r.stdout.strip().split('\n')[-1])
     d['status'] = 'ok'
     d['outs'] = [[float.fromhex(x) for x in o] if k == 'pf64' else o for (k, _), o in zip([a for a in spec if a[0][0] == 'p'], d['outs'])]
     if ret == 'f64': d['ret'] = float.fromhex(d['ret'])
     d['stderr'] = r.stderr[-2000:]
     return d
+
+def native_batch(so, calls, timeout=120):
+    """calls: list of (fn, spec, ret).  One subprocess for all; a crashing call is reported as crash and the rest continue in a new subprocess."""
+    out = [None] * len(calls); start = 0
+    while start < len(calls):
+        js = json.dumps({'so': so, 'batch': [{'fn': fn, 'ret': ret, 'args': spec_to_json(spec)} for fn, spec, ret in calls[start:]]})
+        try:
+            r = subprocess.run([PY, os.path.join(VERIF, 'engine', 'nativecall.py')], input=js, capture_output=True, text=True, timeout=timeout)
+            lines = [l for l in r.stdout.split('\n') if l.startswith('{')]; err = r.stderr[-500:]; rc = r.returncode
+        except subprocess.TimeoutExpired as e:
+            lines = [l for l in (e.stdout or b'').decode().split('\n') if l.startswith('{')]; err = 'timeout'; rc = -1
+        for k, l in enumerate(lines):
+            fn, spec, ret = calls[start + k]; d = json.loads(l); d['status'] = 'ok'
+            d['outs'] = [[float.fromhex(x) for x in o] if kk == 'pf64' else o for (kk, _), o in zip([a for a in spec if a[0][0] == 'p'], d['outs'])]
+            if ret == 'f64': d['ret'] = float.fromhex(d['ret'])
+            out[start + k] = d
+        start += len(lines)
+        if start < len(calls) and (rc != 0 or not lines):
+            out[start] = {'status': 'crash' if err != 'timeout' else 'timeout', 'stderr': err}; start += 1
+    return out
 
 _native_libs = {}
 def native_inproc(so, fn, spec, ret='i32'):
@@ -239,8 +260,8 @@ def run_property(pid, tier, harness, jobs, jobfns, level_text, assumptions, boun
     seen = set()
     for r in results:
         for v in r.violations:
-            if (v['key'], v['what']) in seen: continue
-            seen.add((v['key'], v['what']))
+            if v['key'] in seen: continue     # one report per failing site / input class
+            seen.add(v['key'])
             if v['key'] in open_keys: known_v.append(v)
             else: new_v.append(v)
     inconcl = [x for r in results for x in r.inconclusive]
